@@ -27,6 +27,19 @@ NotAmpUnderList(path) ==
   \E k \in SelIdx(path) : /\ Level(path, k) >= 2
                           /\ LET l == SelOf(path[k].s, 2) IN \E i \in 1..Len(l) : AmpInNotFrom(l[i], Len(l[i]), FALSE)
                           /\ \E j \in SelIdx(path) : j < k /\ Len(SelOf(path[j].s, Level(path, j))) > 1
+\* `&` inside the argument of a :not() in a rule whose parent selector is, after substitution of ITS parents, a list or
+\* a selector with a combinator: the lowered form :not(parent) is then Selectors-4 syntax (complex :not())
+RECURSIVE CxLevel(_, _)
+CxLevel(ls, n) ==
+  LET l == ls[n] IN
+  \/ Len(l) > 1
+  \/ \E i \in 1..Len(l) : \/ Len(l[i]) > 1 \/ l[i][1].comb # ""
+                          \/ (n >= 2 /\ ~HasAmp(l[i]))                       \* implied `& ` in front
+                          \/ (n >= 2 /\ HasAmp(l[i]) /\ CxLevel(ls, n - 1))
+NotAmpUnderComplex(path) ==
+  \E k \in SelIdx(path) : /\ Level(path, k) >= 2
+                          /\ LET l == SelOf(path[k].s, 2) IN \E i \in 1..Len(l) : AmpInNotFrom(l[i], Len(l[i]), FALSE)
+                          /\ Bind(SelLists(path), LAMBDA ls : CxLevel(ls, Level(path, k) - 1))
 \* winners of one environment, only the longhands that have a winner
 Compact(t, U) == [e \in Elems |-> [lh \in {l \in U : t[e][l] # NoWinner} |-> t[e][lh]]]
 CaseOf(id, sh) ==
@@ -45,6 +58,11 @@ CaseOf(id, sh) ==
            \* (expanding such a list instead of using :is() changes the specificity of the nested rule)
            mixed |-> \E a \in 1..Len(sh) : MixedParent(sh[a].path),
            notamp |-> \E a \in 1..Len(sh) : NotAmpUnderList(sh[a].path),
+           \* an `inset` shorthand one of whose values is of newer syntax: lowered to four longhands it is no longer
+           \* valid or invalid as a whole
+           insetmix |-> \E a \in 1..Len(sh) : \E i \in 1..Len(sh[a].decls) :
+                          sh[a].decls[i].p = "inset" /\ DeclFeats(sh[a].decls[i]) \ {"inset"} # {},
+           notampc |-> \E a \in 1..Len(sh) : sh[a].k = "rule" /\ NotAmpUnderComplex(sh[a].path),
            envs |-> [k \in 1..Len(envs) |-> [feats |-> envs[k].feats, conds |-> envs[k].conds]],
            win |-> [k \in 1..Len(envs) |-> Bind(WinTable(sh, info, envs[k]), LAMBDA t : Compact(t, U))]])))
 
